@@ -1,4 +1,4 @@
-/* Scratch prototype: LD_PRELOAD interposer with a controller handshake.
+/* LD_PRELOAD interposer with a controller handshake (C05 crash injection, C11 turn-based scheduling).
  * For every intercepted call on a path under $VERIF_FS_ROOT the process sends one line
  *   "<pid> <tid> <op> <path> [<path2>|<nbytes>]\n"
  * over a Unix stream socket ($VERIF_FS_SOCK) and waits for a 1-line verdict:
@@ -22,9 +22,9 @@
 #include <sys/un.h>
 #include <unistd.h>
 
-static pthread_mutex_t mu = PTHREAD_MUTEX_INITIALIZER;
-static int sock = -1;
-static pid_t sock_pid = 0;
+/* one controller connection per thread, so that threads of one process are scheduled independently */
+static __thread int sock = -1;
+static __thread pid_t sock_pid = 0;
 static __thread int inside = 0;
 
 #define REAL(name) static __typeof__(name) *real_##name; if (!real_##name) real_##name = dlsym(RTLD_NEXT, #name)
@@ -53,7 +53,6 @@ static char ask(const char *op, const char *p1, const char *p2, long nbytes, lon
     char line[2300], rep[32]; char verdict = 'G';
     if (inside) return 'G';
     inside = 1;
-    pthread_mutex_lock(&mu);
     ensure_sock();
     if (sock >= 0) {
         REAL(write); REAL(read);
@@ -66,7 +65,6 @@ static char ask(const char *op, const char *p1, const char *p2, long nbytes, lon
             if (k > 0) { verdict = rep[0]; if (verdict == 'T' && n) *n = atol(rep + 1); }
         }
     }
-    pthread_mutex_unlock(&mu);
     inside = 0;
     if (verdict == 'K') _exit(137);
     return verdict;
@@ -87,7 +85,7 @@ int unlinkat(int d, const char *a, int f) {
 static int do_open(const char *which, const char *p, int fl, mode_t m) {
     static int (*ro)(const char *, int, ...), (*ro64)(const char *, int, ...);
     if (!ro) ro = dlsym(RTLD_NEXT, "open"); if (!ro64) ro64 = dlsym(RTLD_NEXT, "open64");
-    if (under(p)) ask((fl & (O_WRONLY | O_RDWR)) ? ((fl & O_TRUNC) ? "open_trunc" : "open_w") : "open_r", p, 0, 0, 0);
+    if (under(p)) ask((fl & (O_WRONLY | O_RDWR)) ? ((fl & O_TRUNC) ? "open_trunc" : "open_w") : ((fl & O_DIRECTORY) ? "open_dir" : "open_r"), p, 0, 0, 0);
     return which[4] == '6' ? ro64(p, fl, m) : ro(p, fl, m);
 }
 int open(const char *p, int fl, ...) { mode_t m = 0; if (fl & (O_CREAT | O_TMPFILE)) { va_list ap; va_start(ap, fl); m = va_arg(ap, int); va_end(ap); } return do_open("open", p, fl, m); }
@@ -100,7 +98,7 @@ int openat(int d, const char *p, int fl, ...) {
     else if (d != AT_FDCWD && fd_path(d, dir, sizeof dir)) snprintf(full, sizeof full, "%s/%s", dir, p);
     else full[0] = 0;
     if (under(full) && (fl & (O_WRONLY | O_RDWR))) ask((fl & O_TRUNC) ? "open_trunc" : "open_w", full, 0, 0, 0);
-    else if (under(full) && !(fl & O_DIRECTORY)) ask("open_r", full, 0, 0, 0);
+    else if (under(full)) ask((fl & O_DIRECTORY) ? "open_dir" : "open_r", full, 0, 0, 0);
     return r(d, p, fl, m);
 }
 ssize_t write(int fd, const void *b, size_t n) {
@@ -113,4 +111,45 @@ ssize_t write(int fd, const void *b, size_t n) {
         }
     }
     return real_write(fd, b, n);
+}
+
+/* existence tests: without these an existence test is glued to the preceding call and check-then-act
+ * windows could only be opened after the test */
+struct statx;
+static void at_path(int d, const char *a, char *full, size_t n) {
+    char dir[1024];
+    if (a && a[0] == '/') snprintf(full, n, "%s", a);
+    else if (d != AT_FDCWD && a && fd_path(d, dir, sizeof dir)) snprintf(full, n, "%s/%s", dir, a);
+    else full[0] = 0;
+}
+int stat(const char *p, struct stat *b) { REAL(stat); if (under(p)) ask("stat", p, 0, 0, 0); return real_stat(p, b); }
+int lstat(const char *p, struct stat *b) { REAL(lstat); if (under(p)) ask("stat", p, 0, 0, 0); return real_lstat(p, b); }
+int stat64(const char *p, struct stat64 *b) { REAL(stat64); if (under(p)) ask("stat", p, 0, 0, 0); return real_stat64(p, b); }
+int lstat64(const char *p, struct stat64 *b) { REAL(lstat64); if (under(p)) ask("stat", p, 0, 0, 0); return real_lstat64(p, b); }
+int fstatat(int d, const char *p, struct stat *b, int f) {
+    REAL(fstatat); char full[2200]; at_path(d, p, full, sizeof full);
+    if (p && p[0] && under(full)) ask("stat", full, 0, 0, 0);
+    return real_fstatat(d, p, b, f);
+}
+int fstatat64(int d, const char *p, struct stat64 *b, int f) {
+    REAL(fstatat64); char full[2200]; at_path(d, p, full, sizeof full);
+    if (p && p[0] && under(full)) ask("stat", full, 0, 0, 0);
+    return real_fstatat64(d, p, b, f);
+}
+int statx(int d, const char *p, int fl, unsigned int mask, struct statx *b) {
+    static int (*r)(int, const char *, int, unsigned int, struct statx *); if (!r) r = dlsym(RTLD_NEXT, "statx");
+    char full[2200]; at_path(d, p, full, sizeof full);
+    if (p && p[0] && under(full)) ask("stat", full, 0, 0, 0);
+    return r(d, p, fl, mask, b);
+}
+int access(const char *p, int m) { REAL(access); if (under(p)) ask("stat", p, 0, 0, 0); return real_access(p, m); }
+int faccessat(int d, const char *p, int m, int f) {
+    REAL(faccessat); char full[2200]; at_path(d, p, full, sizeof full);
+    if (under(full)) ask("stat", full, 0, 0, 0);
+    return real_faccessat(d, p, m, f);
+}
+int utimensat(int d, const char *p, const struct timespec t[2], int f) {
+    REAL(utimensat); char full[2200]; at_path(d, p, full, sizeof full);
+    if (p && under(full)) ask("utime", full, 0, 0, 0);
+    return real_utimensat(d, p, t, f);
 }
